@@ -15,7 +15,8 @@ package transport
 // protocol speakers but name arbitrary server names / aim at any certificate's KEM key (all of that happens before the
 // client is authenticated), or well-formed transport / control datagrams sealed under keys that need no secret (all-zero,
 // the session id, public wire bytes ...), or messages whose length field and real length were moved TOGETHER to a drawn
-// large / boundary value. A real-time stress unit (abandoned handshakes with a millisecond handshake timeout racing
+// large / boundary value, or COMPLETE well-formed handshakes by clients the server's client-verification policy (CA
+// store / authorized keys / both: a drawn dimension of the configuration) does not admit. A real-time stress unit (abandoned handshakes with a millisecond handshake timeout racing
 // session-typed datagrams, wedge proven from goroutine dumps) lives in zz_verif_c10s_test.go.
 
 import (
@@ -36,6 +37,7 @@ import (
 
 	"pgregory.net/rapid"
 
+	"hop.computer/hop/authkeys"
 	"hop.computer/hop/certs"
 	"hop.computer/hop/keys"
 	"hop.computer/hop/pkg/glob"
@@ -89,6 +91,11 @@ type c10Cfg struct {
 	Certs    int  `json:"certs"`              // 1: ServerConfig.Certificate; 2,3: virtual hosts through GetCertificate/GetCertList
 	NoKEM0   bool `json:"noKem0,omitempty"`   // the first virtual host has no KEM key (not usable in hidden mode)
 	Fallback bool `json:"fallback,omitempty"` // the last virtual host has pattern "*"
+	// Policy: how the server verifies clients (ServerConfig.ClientVerify), the options hopserver.NewHopServer builds:
+	// "" certificate validation only (CA store); "keys" authorized keys only (certificate validation disabled: the zero
+	// Store; both honest clients' keys are in the set); "both" authorized keys, then the CA store (the first honest
+	// client's key is in the set, the second honest client is admitted through its certificate chain after a miss in the set)
+	Policy string `json:"policy,omitempty"`
 }
 
 func (c c10Cfg) String() string {
@@ -103,7 +110,85 @@ func (c c10Cfg) String() string {
 	if c.Fallback {
 		s += "/fallback"
 	}
+	if c.Policy != "" {
+		s += "/policy-" + c.Policy
+	}
 	return s
+}
+
+// ---------------------------------------------------------------------------
+// strangers: clients that speak the protocol flawlessly and hold the private key of the certificate they present, but
+// are NOT admitted by any client-verification policy of this harness (issued once per process on the real clock)
+
+type c10Stranger struct {
+	Tag   string
+	Key   *keys.X25519KeyPair
+	Leaf  *certs.Certificate
+	Inter *certs.Certificate
+}
+
+var (
+	c10StrangersOnce sync.Once
+	c10StrangerList  []c10Stranger
+)
+
+const c10StrangerRemoved = 5 // index of the stranger whose key was authorized once and removed again
+
+func c10Strangers() []c10Stranger {
+	c10StrangersOnce.Do(func() {
+		w := vGetWorld()
+		ident := func(name string) (*keys.X25519KeyPair, *certs.Identity) {
+			k := keys.GenerateNewX25519KeyPair()
+			return k, &certs.Identity{PublicKey: k.Public, Names: []certs.Name{certs.RawStringName(name)}}
+		}
+		add := func(tag string, k *keys.X25519KeyPair, leaf *certs.Certificate, err error, inter *certs.Certificate) {
+			vMust(err)
+			c10StrangerList = append(c10StrangerList, c10Stranger{Tag: tag, Key: k, Leaf: leaf, Inter: inter})
+		}
+		k, id := ident("stranger-self-signed")
+		leaf, err := certs.SelfSignLeaf(id)
+		add("self-signed-unknown-key", k, leaf, err, nil)
+		other := c01OtherWorld().Inter
+		k, id = ident("stranger-other-ca")
+		leaf, err = certs.IssueLeaf(other, id)
+		add("chain-of-an-untrusted-ca", k, leaf, err, other)
+		k, id = ident("stranger-expired")
+		leaf, err = certs.IssueLeafAt(w.Inter, id, w.Inter.IssuedAt, 5*time.Second)
+		add("expired-leaf-of-the-trusted-ca", k, leaf, err, w.Inter)
+		k, id = ident("stranger-not-yet-valid")
+		leaf, err = certs.IssueLeafAt(w.Inter, id, w.Now.Add(24*time.Hour), 48*time.Hour)
+		add("not-yet-valid-leaf-of-the-trusted-ca", k, leaf, err, w.Inter)
+		// a valid leaf of an intermediate the server does not hold (its store has the root only), presented WITHOUT it
+		k, id = ident("stranger-no-intermediate")
+		leaf, err = certs.IssueLeaf(w.Inter, id)
+		add("leaf-without-its-intermediate", k, leaf, err, nil)
+		k, id = ident("stranger-removed-key")
+		leaf, err = certs.SelfSignLeaf(id)
+		add("self-signed-key-removed-from-the-set", k, leaf, err, nil)
+	})
+	return c10StrangerList
+}
+
+// c10ClientPolicy builds ServerConfig.ClientVerify for a policy (see c10Cfg.Policy); a fresh key set per server.
+func c10ClientPolicy(policy string) *VerifyConfig {
+	w := vGetWorld()
+	vc := &VerifyConfig{CurrentTime: w.Now}
+	if policy != "keys" {
+		vc.Store = w.store()
+	}
+	if policy == "keys" || policy == "both" {
+		set := authkeys.NewSyncAuthKeySet()
+		set.AddKey(keys.GenerateNewX25519KeyPair().Public) // somebody else's key
+		set.AddKey(w.CliLeaf.PublicKey)
+		if policy == "keys" {
+			set.AddKey(w.Cli2Leaf.PublicKey)
+		}
+		rm := c10Strangers()[c10StrangerRemoved].Leaf.PublicKey
+		set.AddKey(rm)
+		set.RemoveKey(rm)
+		vc.AuthKeys, vc.AuthKeysAllowed = set, true
+	}
+	return vc
 }
 
 type c10VHost struct {
@@ -117,7 +202,9 @@ type c10VHost struct {
 func c10ServerConfig(c c10Cfg) ServerConfig {
 	w := vGetWorld()
 	if c.Certs <= 1 {
-		return w.ServerConfig(c.Hidden)
+		sc := w.ServerConfig(c.Hidden)
+		sc.ClientVerify = c10ClientPolicy(c.Policy)
+		return sc
 	}
 	hosts := c10Hosts()[:c.Certs]
 	vhosts := make([]c10VHost, 0, len(hosts))
@@ -172,7 +259,7 @@ func c10ServerConfig(c c10Cfg) ServerConfig {
 		GetCertificate:       getCert,
 		GetCertList:          getList,
 		HandshakeTimeout:     5 * time.Second,
-		ClientVerify:         &VerifyConfig{Store: w.store(), CurrentTime: w.Now},
+		ClientVerify:         c10ClientPolicy(c.Policy),
 		HiddenModeVHostNames: hiddenNames,
 		IsHidden:             c.Hidden,
 	}
@@ -334,6 +421,7 @@ func c10Capture(t *testing.T, hidden bool) (out []c10Tmpl, problem string) {
 func c10Table(t *testing.T) []c10Tmpl {
 	c10TableOnce.Do(func() {
 		c10Hosts() // certificates must be issued on the real clock (outside any bubble)
+		c10Strangers()
 		d, p := c10Capture(t, false)
 		if p != "" {
 			c10TableErr = p
@@ -377,7 +465,7 @@ func c10Table(t *testing.T) []c10Tmpl {
 // case
 
 type c10Junk struct {
-	K    string `json:"k"`              // rand | tmpl | hdr | seal | name | rawsni | hidreq | rawauth | rawhid (the last two: Cut = length of the certificate-field plaintext (<0 natural), V / B1 = first / second length prefix (c10BlobFirst / c10BlobSecond), B2 = content, T = virtual host of rawhid)
+	K    string `json:"k"`              // rand | tmpl | hdr | seal | name | rawsni | hidreq | rawauth | rawhid | stranger (stranger: V = identity (c10Strangers), T = virtual host wish; the last two: Cut = length of the certificate-field plaintext (<0 natural), V / B1 = first / second length prefix (c10BlobFirst / c10BlobSecond), B2 = content, T = virtual host of rawhid)
 	Src  int    `json:"src,omitempty"`  // 0: the peer's own address (server target: the handshaking / first established client; client target: the server); n>0: third address n (5: a third address with source port 0 - replies to it fail in the socket); -1: the address the replayed datagram of this case's own traffic (tmpl with T>=100) originally came from (the peer's own address for other junk)
 	T    int    `json:"t,omitempty"`    // tmpl: index into the table of valid messages; 100+i: the i-th most recent datagram of this case's honest traffic (0 = a held-back message); 200+i: its i-th datagram in order of appearance (oldest first); 300+m: its most recent datagram of message type m
 	F    string `json:"f,omitempty"`    // tmpl: mutated field: type | b1 | b2 | b3 | certlen | ctr | fit ("" none)
@@ -445,6 +533,7 @@ type c10RT struct {
 	structured int
 	injected   int
 	actors     int
+	strangers  int
 	nextCli    int
 	openClient *Client // client target, state open
 }
@@ -1012,7 +1101,7 @@ func (r *c10RT) note(class string, structured bool) {
 // junkToServer handles one junk item aimed at the server.
 func (r *c10RT) junkToServer(j c10Junk, peer *net.UDPAddr, wait bool) {
 	switch j.K {
-	case "name", "rawsni", "hidreq", "rawauth", "rawhid":
+	case "name", "rawsni", "hidreq", "rawauth", "rawhid", "stranger":
 		r.actor(j)
 		return
 	}
@@ -1042,6 +1131,27 @@ func (r *c10RT) actor(j c10Junk) {
 		err, _ := c10Handshake(cli, 4*time.Second)
 		r.note("name:"+nm.Tag, true)
 		r.label(fmt.Sprintf("name:%s:completed=%v", nm.Tag, err == nil))
+	case "stranger":
+		// a COMPLETE, well-formed handshake in the server's own mode by a client the policy does not admit: every
+		// datagram is genuine, the certificate field decrypts and parses, the client proves possession of the key - and
+		// nothing of it is authenticated in the sense of the policy. The server has to refuse it and go on.
+		ids := c10Strangers()
+		st := ids[((j.V%len(ids))+len(ids))%len(ids)]
+		host := r.hostFor(((j.T % 3) + 3) % 3)
+		cfg := c10ClientConfig(r.c.Cfg.Hidden, host, true)
+		cfg.Exchanger, cfg.Leaf, cfg.Intermediate = st.Key, st.Leaf, st.Inter
+		cli := r.newClient(addr, cfg, host)
+		err, _ := c10Handshake(cli, 3*time.Second)
+		c10Wait()
+		admitted := false
+		if err == nil && cli.ss != nil {
+			r.mu.Lock()
+			_, admitted = r.handles[cli.ss.sessionID]
+			r.mu.Unlock()
+		}
+		r.strangers++
+		r.note("stranger:"+st.Tag, true)
+		r.label(fmt.Sprintf("stranger:%s:admitted=%v", st.Tag, admitted))
 	case "hidreq":
 		host := ((j.V % 3) + 3) % 3
 		if r.hidLoopGuard() && host != r.firstListHost() {
@@ -1829,7 +1939,7 @@ func c10GenJunk(t *rapid.T, c *c10Case, table []c10Tmpl, actors *int) c10Junk {
 	serverT := c.Target == "server"
 	kinds := []any{"rand", 20, "tmpl", 50, "hdr", 15, "seal", 10}
 	if serverT && *actors < 5 && c.State != "closing" {
-		kinds = append(kinds, "hidreq", 4, "rawhid", 4)
+		kinds = append(kinds, "hidreq", 4, "rawhid", 4, "stranger", 6)
 		if !c.Cfg.Hidden {
 			kinds = append(kinds, "name", 5, "rawsni", 5, "rawauth", 5)
 		}
@@ -1958,6 +2068,10 @@ func c10GenJunk(t *rapid.T, c *c10Case, table []c10Tmpl, actors *int) c10Junk {
 			j.V = 0
 		}
 		*actors++
+	case "stranger":
+		j.V = rapid.IntRange(0, len(c10Strangers())-1).Draw(t, "identity")
+		j.T = rapid.IntRange(0, 2).Draw(t, "host")
+		*actors++
 	case "rawauth", "rawhid":
 		switch c10W[int](t, "bloblen", 0, 3, 1, 3, 2, 2, 3, 1) {
 		case 0:
@@ -1997,6 +2111,7 @@ func c10Gen(table []c10Tmpl) func(t *rapid.T) c10Case {
 		c.Target = c10W[string](t, "target", "server", 3, "client", 1)
 		c.Cfg.Hidden = rapid.Bool().Draw(t, "hidden")
 		c.Cfg.Certs = c10W[int](t, "certs", 3, 3, 2, 3, 1, 3)
+		c.Cfg.Policy = c10W[string](t, "policy", "", 2, "keys", 1, "both", 1)
 		hidGuard := c10Open(c10SigHidLoop) && c.Cfg.Hidden && c.Cfg.Certs >= 2
 		if c.Cfg.Certs >= 2 {
 			c.Cfg.Fallback = rapid.IntRange(0, 3).Draw(t, "fallback") == 0
@@ -2421,10 +2536,64 @@ func TestVerifC10Sweep(t *testing.T) {
 			}
 		}
 	}
+	// fifth enumeration: STRANGERS WITH A REAL HANDSHAKE against every client-verification policy. 1..3 complete,
+	// well-formed handshakes by clients the policy does not admit (self-signed unknown key, chain of an untrusted CA,
+	// expired / not yet valid leaf of the trusted CA, leaf without its intermediate, key that was removed from the
+	// authorized set), between them a verbatim copy of the most recent certificate-carrying client message (the
+	// stranger's own), against idle servers, servers with two established sessions and servers with an honest ClientAuth
+	// held back, one certificate / several virtual hosts, discoverable / hidden, x {CA store, authorized keys, both}.
+	// The refusal happens in the receive goroutine, behind the policy's own locks and lookups: whatever it leaves
+	// behind meets the NEXT certificate-carrying message (the held-back one, the probe handshake).
+	{
+		d1, h1 := c10Cfg{Certs: 1}, c10Cfg{Hidden: true, Certs: 1}
+		d2, h3 := c10Cfg{Certs: 2, Fallback: true}, c10Cfg{Hidden: true, Certs: 3}
+		nid := len(c10Strangers())
+		for _, cfg := range []c10Cfg{d1, h1, d2, h3} {
+			states := []string{"idle", "est"}
+			if !cfg.Hidden {
+				states = append(states, "mid-auth-held")
+			}
+			for _, policy := range []string{"", "keys", "both"} {
+				cfg.Policy = policy
+				for _, state := range states {
+					for first := 0; first < nid; first++ {
+						for n := 1; n <= 3; n++ {
+							idx++
+							if !rec.Mine(idx) {
+								continue
+							}
+							c := c10Case{Target: "server", Cfg: cfg, State: state, ProbeHost: first % cfg.Certs}
+							switch state {
+							case "est":
+								c.Sessions = 2
+							case "mid-auth-held":
+								c.Sessions = n % 2
+							}
+							for i := 0; i < n; i++ {
+								if i > 0 {
+									copyOf := 300 + int(MessageTypeClientAuth)
+									if cfg.Hidden {
+										copyOf = 300 + int(MessageTypeClientRequestHidden)
+									}
+									c.Junk = append(c.Junk, c10Junk{K: "tmpl", T: copyOf, Src: -(i % 2)})
+								}
+								c.Junk = append(c.Junk, c10Junk{K: "stranger", V: (first + i) % nid, T: first + i})
+							}
+							datagrams += len(c.Junk)
+							rec.Persist(c)
+							if !vlib.Each(t, rec, c, run) {
+								return
+							}
+						}
+					}
+				}
+			}
+		}
+	}
 	// complete only if nothing of the enumerated space had to be skipped because of an open finding
 	rec.SetExhaustive(complete && c10ExcludedTotal == 0)
 	rec.AddExtra("datagrams", datagrams)
-	rec.Extra("enumerated", "every message of an honest discoverable and hidden run (10 messages), every truncation length 0..len, first byte kept and replaced by each other valid type byte, bytes 4..8 kept and replaced by a live session id, against 7 server state/configuration pairs and 5 client states (quick tier: handshaking clients get the server-sent messages with the types a client reads, other messages up to 64 bytes); every message type with a length field x field and real length set consistently to every boundary value (around 0, 2^8, 2^14, 2^15, MaxPlaintextSize, MaxTotalPacketSize, 65507, 65535; as field value and as datagram length; exact and off by one) and to the message's own value -2..+2; transport / control / unknown-type datagrams sealed with the real sealing code under each of 6 guessable keys x 3 counters x pending-or-live / second live / unknown session id; ClientAuth (discoverable) and hidden requests (every configuration) by peers that run the unauthenticated part of the key exchange and put a chosen plaintext into the certificate field: first / second vector length prefix at every position relative to the room left (exact, 1..3 past, 0, 0xffff) x genuine / random contents x natural / 8 / 300 bytes; verbatim copies of every datagram of the case's own honest traffic (every handshake message of each established session and of the handshake in progress, the held-back message, probe messages; for an idle server the 10 messages of another handshake), one per case, x {from the address the original came from, from the peer's address, from a third address} x the copy arrives {at the instant of the honest handshakes, 1 s later (their handshake timers are running), 7 s later (they have fired)} x oracle {at once, 6 s, 11 s later: the 5 s handshake timeout has passed once / twice} against 13 server scenarios (idle, 1 / 2 established sessions, one closed by its owner, ClientAck / ClientAuth held back with and without established sessions, one certificate / two virtual hosts / hidden / hidden with three certificates) and 5 client scenarios, plus the whole conversation copied in the original order, in reverse order and from a third address (also racing Server.Close)")
+	rec.Extra("enumerated", "every message of an honest discoverable and hidden run (10 messages), every truncation length 0..len, first byte kept and replaced by each other valid type byte, bytes 4..8 kept and replaced by a live session id, against 7 server state/configuration pairs and 5 client states (quick tier: handshaking clients get the server-sent messages with the types a client reads, other messages up to 64 bytes); every message type with a length field x field and real length set consistently to every boundary value (around 0, 2^8, 2^14, 2^15, MaxPlaintextSize, MaxTotalPacketSize, 65507, 65535; as field value and as datagram length; exact and off by one) and to the message's own value -2..+2; transport / control / unknown-type datagrams sealed with the real sealing code under each of 6 guessable keys x 3 counters x pending-or-live / second live / unknown session id; ClientAuth (discoverable) and hidden requests (every configuration) by peers that run the unauthenticated part of the key exchange and put a chosen plaintext into the certificate field: first / second vector length prefix at every position relative to the room left (exact, 1..3 past, 0, 0xffff) x genuine / random contents x natural / 8 / 300 bytes; verbatim copies of every datagram of the case's own honest traffic (every handshake message of each established session and of the handshake in progress, the held-back message, probe messages; for an idle server the 10 messages of another handshake), one per case, x {from the address the original came from, from the peer's address, from a third address} x the copy arrives {at the instant of the honest handshakes, 1 s later (their handshake timers are running), 7 s later (they have fired)} x oracle {at once, 6 s, 11 s later: the 5 s handshake timeout has passed once / twice} against 13 server scenarios (idle, 1 / 2 established sessions, one closed by its owner, ClientAck / ClientAuth held back with and without established sessions, one certificate / two virtual hosts / hidden / hidden with three certificates) and 5 client scenarios, plus the whole conversation copied in the original order, in reverse order and from a third address (also racing Server.Close); 1..3 complete well-formed handshakes by clients the policy does not admit (6 identities: self-signed unknown key, chain of an untrusted CA, expired / not yet valid leaf of the trusted CA, leaf without its intermediate, key removed from the authorized set) with a copy of the stranger's own certificate-carrying message in between x client-verification policy {CA store, authorized keys, both} x {idle, 2 established sessions, honest ClientAuth held back} x {one certificate, two virtual hosts, hidden, hidden with three certificates}")
 }
 
 // ---------------------------------------------------------------------------
